@@ -3,6 +3,8 @@ package main
 import (
 	"fmt"
 	"math"
+	"regexp"
+	"strings"
 
 	"verif/internal/eng"
 	"verif/internal/ev"
@@ -230,6 +232,51 @@ func c01(c *ev.Ctx) {
 	}
 	c.Extra("exhaustive_table", true)
 	c.Extra("table_cells", len(cells)+len(ucells))
+	c01RegexpOperators(c)
+}
+
+// c01RegexpOperators: ~= and !~ (and the regexp's printed form) for patterns of every
+// shape - groups first, flags, classes, escapes - against Go's regexp package.
+func c01RegexpOperators(c *ev.Ctx) {
+	pats := []struct{ pat, flags string }{{"(?:a|b)c", ""}, {"(?:a|b)c", "i"}, {"(?P<n>x+)y", ""}, {"(?i:ab)C", ""}, {"(a)(b)?c", ""}, {"^(?:ab)+$", "m"}, {"a|b|", ""}, {"[(?]x", ""}, {"\\(\\?:a\\)", ""}, {"x{2,3}", ""},
+		{"(?s)a.b", ""}, {"(?U)a+", ""}, {"(?-i)A", "i"}, {"((?:a))b", ""}, {"(?:)c", ""}}
+	subjects := []string{"xc", "ac", "bc", "AC", "c", "xxy", "y", "abC", "ABC", "abab", "ab\nabab", "", "a", "(x", "(?:a)", "xx", "xxxx", "a\nb", "A", "b"}
+	for pi, pt := range pats {
+		goPat := pt.pat
+		if pt.flags != "" {
+			goPat = "(?" + pt.flags + ")" + pt.pat
+		}
+		re, err := regexp.Compile(goPat)
+		if err != nil {
+			continue
+		}
+		lit := gast.EncodeRegex(pt.pat, pt.flags)
+		for si, subj := range subjects {
+			id := fmt.Sprintf("regexp-operators/%d/%d", pi, si)
+			if !c.Want(id) {
+				continue
+			}
+			want := false
+			for _, line := range strings.Split(subj, "\n") {
+				if re.MatchString(strings.TrimSpace(line)) {
+					want = true
+				}
+			}
+			sl := gast.EncodeString(subj, '"', nil)
+			script := "r = " + lit + "; return [" + sl + " ~= " + lit + ", " + sl + " !~ " + lit + ", " + sl + " ~= r, S !~ r, string(r) == string(" + lit + ")];"
+			for _, noOpt := range []bool{false, true} {
+				evr, err := eng.New(script, eng.Options{NoOptimize: noOpt})
+				got := "rejected"
+				if err == nil {
+					got = evr.Exec(map[string]interface{}{"S": subj}).Desc()
+				}
+				c.Case(script+fmt.Sprint(noOpt), true)
+				if w := fmt.Sprintf("ARRAY:[%v, %v, %v, %v, true]", want, !want, want, !want); got != w {
+					c.Violation(id, "regexp operators", map[string]interface{}{"summary": fmt.Sprintf("%s (noopt=%v) gives %s, Go's regexp for %q on %q says %s", script, noOpt, got, goPat, subj, w), "script": script})
+				}
+			}
+		}
+	}
 }
 
 func opOrPlus(op string) string {
